@@ -15,7 +15,13 @@ ENTRY = dict(
         "no frame unfinished. The full statement is kept as `close_full : Prop`; "
         "`close_stuck_witness` proves its negation on the two F1 states (`stuck_without_traffic`: no frame-free schedule completes the join; "
         "`stuck_disconnected_forever`: no schedule at all). The harness replays close() at every point of generated histories on the implementation, "
-        "compares with the model, and judges termination / leftovers / bound on what the implementation did."),
+        "compares with the model, and judges termination / leftovers / bound on what the implementation did. "
+        "Round 8: `close_time_bound` (explicit virtual-time bound |writeQ|*READER_TIMEOUT + WRITER_TIMEOUT for the drains case; the harness measures EVERY returning close() "
+        "against its generalisation), `taskNames_total` (live tasks by coroutine name, compared after every event), `version_known_queues_nothing` / `version_learned` "
+        "(an unchanged frame-version table queues nothing: the queue cannot grow by re-queueing; harness clause: write queue strictly growing over identical announcements), "
+        "`verKinds_eq`; the machine's `finishClose` cancels the connection's retry task (daf0ebe) and `reopen` lets close() be called twice / before connect() / after which "
+        "the object is connected again; implementation-only section `held_open_variant`: close() while a retry attempt of the connection's own chain is in flight, the attempt "
+        "succeeding at each loop iteration of close()."),
     level_note="Partial by construction: liveness is proved for the modelled scheduler and exercised on the real loop; F1 (unbounded Queues.join) is an open known finding.",
     clauses={
         "close() returns within (queued+1)*ioTimeout from states that drain": "theorem (close_partial, modelled scheduler) + correspondence (virtual time taken vs bound)",
